@@ -1,1 +1,894 @@
-# stub
+"""
+Checks for C13 (malformed calls), C14 (statelessness), C18 (comparison operators),
+C19 (five models differ only in the update rule), C20 (build / store / restore).
+"""
+import copy, decimal, fractions, hashlib, inspect, itertools, json, math, os, random, subprocess, sys, threading
+import core
+from core import (KINDS, MODEL_CLS, RATING_CLS, make_game, build_model, build_teams, call_rate, impl_teams, f2h, h2f,
+                  size, Driver, describe, rate_line, corr_games)
+import gen
+from gen import gen_game, gen_teams, gen_config, random_weak_order, encode_ranks
+from props import register
+import p_pred
+
+# =============================================================================== C13
+# terms: ('N',) ('B',b) ('I',i) ('F',x) ('S',s) ('L',[..]) ('T',[..]) ('D',n) ('E',n) ('R',kind,mu,sigma) ('O',which)
+OBJECTS = ["object", "decimal", "fraction", "complex", "bytes", "range", "lambda"]
+
+
+def tok(term):
+    k = term[0]
+    if k == "N": return ["N"]
+    if k == "B": return ["B1" if term[1] else "B0"]
+    if k == "I": return ["I%d" % term[1]]
+    if k == "F": return ["F0" if term[1] == 0.0 else "F1"]
+    if k == "S": return ["S%d" % len(term[1])]
+    if k in ("L", "T"):
+        out = ["%s%d" % (k, len(term[1]))]
+        for x in term[1]:
+            out += tok(x)
+        return out
+    if k == "D": return ["D%d" % term[1]]
+    if k == "E": return ["E%d" % term[1]]
+    if k == "R": return ["R" + term[1]]
+    if k == "O": return ["O"]
+    raise ValueError(term)
+
+
+_MODELS = {}
+
+
+def materialize(term, registry):
+    k = term[0]
+    if k == "N": return None
+    if k == "B": return bool(term[1])
+    if k == "I": return int(term[1])
+    if k == "F": return float(term[1])
+    if k == "S": return term[1]
+    if k == "L": return [materialize(x, registry) for x in term[1]]
+    if k == "T": return tuple(materialize(x, registry) for x in term[1])
+    if k == "D": return {i: i for i in range(term[1])}
+    if k == "E": return set(range(term[1]))
+    if k == "R":
+        m = _MODELS.setdefault(term[1], MODEL_CLS[term[1]]())
+        r = m.rating(mu=term[2], sigma=term[3], name="x")
+        registry.append(r)
+        return r
+    if k == "O":
+        w = term[1]
+        return {"object": object(), "decimal": decimal.Decimal("1.5"), "fraction": fractions.Fraction(3, 2),
+                "complex": complex(1, 1), "bytes": b"ab", "range": range(3), "lambda": (lambda: 0)}[w]
+    raise ValueError(term)
+
+
+def valid_teams_term(rng, kind, n=None):
+    n = n or rng.randint(2, 5)
+    return ("L", [("L", [("R", kind, rng.gauss(25, 5), rng.uniform(1, 9)) for _ in range(rng.randint(1, 3))]) for _ in range(n)])
+
+
+def number_term(rng):
+    r = rng.random()
+    if r < 0.3: return ("I", rng.randint(-5, 9))
+    if r < 0.55: return ("F", rng.choice([0.0, -0.0, 1.5, -2.25, 3.0, 1e20]))
+    if r < 0.7: return ("B", rng.random() < 0.5)
+    if r < 0.8: return ("I", rng.choice([0, 10 ** 20, -10 ** 20]))
+    return ("F", rng.uniform(-10, 10))
+
+
+def junk_term(rng, kind, level):
+    """something that is wrong at this place"""
+    other = rng.choice([k for k in KINDS if k != kind])
+    pool = [("N",), ("I", rng.choice([0, 1, 7])), ("F", rng.choice([0.0, 2.5])), ("S", rng.choice(["", "ab"])), ("B", rng.random() < 0.5),
+            ("D", rng.choice([0, 2])), ("E", rng.choice([0, 2])), ("O", rng.choice(OBJECTS)), ("R", other, 25.0, 8.0),
+            ("T", []), ("T", [("R", kind, 25.0, 8.0)]), ("L", []), ("T", [("F", 25.0), ("F", 8.0)]), ("L", [("F", 25.0), ("F", 8.0)])]
+    if level != "player":
+        pool.append(("R", kind, 25.0, 8.0))
+    return rng.choice(pool)
+
+
+def mutate_teams(rng, kind, teams):
+    teams = ("L", [("L", list(t[1])) for t in teams[1]])
+    r = rng.random()
+    if r < 0.15:
+        j = junk_term(rng, kind, "teams")
+        if j[0] == "L":
+            j = ("T", [("L", [("R", kind, 25.0, 8.0)]), ("L", [("R", kind, 25.0, 8.0)])])
+        return j
+    if r < 0.25:
+        return ("L", teams[1][:rng.choice([0, 1])])
+    if r < 0.3:
+        return ("T", teams[1])
+    i = rng.randrange(len(teams[1]))
+    if r < 0.55:
+        j = junk_term(rng, kind, "team")
+        if j[0] == "L" and j[1] and all(x[0] == "R" and x[1] == kind for x in j[1]):
+            j = ("L", [])
+        teams[1][i] = j
+        return teams
+    pj = rng.randrange(len(teams[1][i][1]))
+    teams[1][i][1][pj] = junk_term(rng, kind, "player")
+    return teams
+
+
+def mutate_selector(rng, kind, n):
+    r = rng.random()
+    good = [number_term(rng) for _ in range(n)]
+    if r < 0.25:
+        return rng.choice([("T", good), ("S", "ab"), ("I", 3), ("F", 2.5), ("D", 2), ("E", 2), ("O", rng.choice(OBJECTS)), ("B", True),
+                           ("R", kind, 25.0, 8.0)])
+    if r < 0.45:
+        k = rng.choice([n - 1, n + 1, 1, n + 3])
+        return ("L", [number_term(rng) for _ in range(max(1, k))])
+    i = rng.randrange(n)
+    good[i] = rng.choice([("N",), ("S", "1"), ("O", rng.choice(OBJECTS)), ("L", [("I", 1)]), ("T", [("I", 1)]), ("R", kind, 25.0, 8.0), ("D", 0)])
+    return ("L", good)
+
+
+FALSY = [("N",), ("L", []), ("I", 0), ("F", 0.0), ("S", ""), ("T", []), ("D", 0), ("B", False), ("E", 0)]
+
+
+def gen_call(rng, kind):
+    """-> (op, teams_term, ranks_term, scores_term, label)"""
+    op = rng.choice(["rate", "rate", "rate", "predict_win", "predict_draw", "predict_rank"])
+    teams = valid_teams_term(rng, kind)
+    n = len(teams[1])
+    ranks, scores = ("N",), ("N",)
+    mode = rng.random()
+    label = "wellformed"
+    if mode < 0.3:
+        teams = mutate_teams(rng, kind, teams); label = "bad-teams"
+        if rng.random() < 0.5:
+            ranks = ("L", [number_term(rng) for _ in range(n)])
+    elif op != "rate":
+        pass
+    elif mode < 0.5:
+        ranks = mutate_selector(rng, kind, n); label = "bad-ranks"
+    elif mode < 0.65:
+        scores = mutate_selector(rng, kind, n); label = "bad-scores"
+    elif mode < 0.73:
+        ranks = ("L", [number_term(rng) for _ in range(n)]); scores = ("L", [number_term(rng) for _ in range(n)]); label = "both"
+    elif mode < 0.8:
+        ranks = rng.choice(FALSY); scores = rng.choice([("L", [number_term(rng) for _ in range(n)]), rng.choice(FALSY)]); label = "falsy-ranks"
+    elif mode < 0.85:
+        scores = rng.choice(FALSY); ranks = ("L", [number_term(rng) for _ in range(n)]); label = "falsy-scores"
+    elif mode < 0.93:
+        ranks = ("L", [number_term(rng) for _ in range(n)])
+    else:
+        scores = ("L", [number_term(rng) for _ in range(n)])
+    return op, teams, ranks, scores, label
+
+
+def snapshot_ratings(registry):
+    return [(id(r), r.id, r.name, repr(r.mu), repr(r.sigma)) for r in registry]
+
+
+def model_state(m):
+    return {k: (v if not callable(v) else id(v)) for k, v in m.__dict__.items()}
+
+
+def c13_call(res, kind, call, drv_out):
+    op, teams_t, ranks_t, scores_t, label = call
+    inp = dict(type="c13", kind=kind, call=[op, teams_t, ranks_t, scores_t, label])
+    registry = []
+    teams = materialize(teams_t, registry)
+    ranks = materialize(ranks_t, registry)
+    scores = materialize(scores_t, registry)
+    model = MODEL_CLS[kind]()
+    before_r, before_m = snapshot_ratings(registry), model_state(model)
+    exc = None
+    try:
+        if op == "rate":
+            model.rate(teams, ranks=ranks, scores=scores)
+        else:
+            getattr(model, op)(teams)
+    except Exception as e:  # noqa: BLE001
+        exc = type(e).__name__
+    res.count("label_" + label)
+    res.count("outcome_" + (exc or "accepted"))
+    res.traces += 1
+    want = drv_out  # 'ok' | 'TypeError' | 'ValueError'  (the model; by theorem validate_iff: ok <-> WellFormed)
+    if exc is None:
+        if want != "ok":
+            res.fail("property", "C13: malformed call (%s; model rejects with %s) returned normally: %s(%s, ranks=%s, scores=%s)" % (
+                label, want, op, show(teams_t), show(ranks_t), show(scores_t)), inp)
+        return
+    if exc not in ("TypeError", "ValueError"):
+        res.fail("property", "C13: %s raised %s (neither TypeError nor ValueError): %s(%s, ranks=%s, scores=%s)" % (
+            label, exc, op, show(teams_t), show(ranks_t), show(scores_t)), inp)
+        return
+    if want == "ok":
+        res.fail("property", "C13: well-formed call rejected with %s: %s(%s, ranks=%s, scores=%s)" % (
+            exc, op, show(teams_t), show(ranks_t), show(scores_t)), inp)
+        return
+    if snapshot_ratings(registry) != before_r:
+        res.fail("property", "C13: a rating object was modified before the call was rejected (%s): %s(%s, ranks=%s, scores=%s)" % (
+            exc, op, show(teams_t), show(ranks_t), show(scores_t)), inp)
+    if model_state(model) != before_m:
+        res.fail("property", "C13: a model attribute was modified before the call was rejected", inp)
+    if exc != want:
+        res.fail("correspondence", "C13: implementation raises %s where the model raises %s: %s(%s, ranks=%s, scores=%s)" % (
+            exc, want, op, show(teams_t), show(ranks_t), show(scores_t)), inp)
+
+
+def show(t):
+    s = " ".join(tok(t))
+    return s if len(s) < 70 else s[:67] + "..."
+
+
+def c13_line(kind, call):
+    op, teams_t, ranks_t, scores_t, _ = call
+    if op == "rate":
+        return "VRATE %s %s %s %s" % (kind, " ".join(tok(teams_t)), " ".join(tok(ranks_t)), " ".join(tok(scores_t)))
+    return "VPRED %s %s" % (kind, " ".join(tok(teams_t)))
+
+
+def totuple(x):
+    if isinstance(x, list):
+        if x and isinstance(x[0], str) and x[0] in ("N", "B", "I", "F", "S", "L", "T", "D", "E", "R", "O"):
+            if x[0] in ("L", "T"):
+                return (x[0], [totuple(y) for y in x[1]])
+            return tuple(x)
+    return x
+
+
+def c13_item(res, item):
+    kind = item["kind"]
+    op, a, b, c, label = item["call"]
+    call = (op, totuple(a), totuple(b), totuple(c), label)
+    res.case(item)
+    out = Driver().run([c13_line(kind, call)])[0]
+    c13_call(res, kind, call, out)
+
+
+def c13_systematic(rng, kind):
+    """every junk piece at every position of one valid game"""
+    calls = []
+    base = valid_teams_term(rng, kind, n=3)
+    n = 3
+    junk_all = [("N",), ("I", 0), ("I", 7), ("F", 0.0), ("F", 2.5), ("S", ""), ("S", "ab"), ("B", True), ("B", False), ("D", 0), ("D", 2),
+                ("E", 0), ("E", 2), ("T", []), ("L", [])] + [("O", o) for o in OBJECTS] + \
+               [("R", k, 25.0, 8.0) for k in KINDS] + [("T", [("F", 25.0), ("F", 8.0)]), ("L", [("F", 25.0), ("F", 8.0)])]
+    for j in junk_all:
+        calls.append(("rate", j, ("N",), ("N",), "bad-teams"))
+        for op in ("predict_win", "predict_draw", "predict_rank"):
+            calls.append((op, j, ("N",), ("N",), "bad-teams"))
+        for i in range(n):
+            t = ("L", [("L", list(x[1])) for x in base[1]]); t[1][i] = j
+            lab = "wellformed" if (j[0] == "L" and j[1] and False) else "bad-teams"
+            calls.append(("rate", t, ("N",), ("N",), lab))
+            calls.append(("predict_win", t, ("N",), ("N",), lab))
+            for pj in range(len(base[1][i][1])):
+                t = ("L", [("L", list(x[1])) for x in base[1]]); t[1][i][1][pj] = j
+                lab = "wellformed" if (j[0] == "R" and j[1] == kind) else "bad-teams"
+                calls.append(("rate", t, ("N",), ("N",), lab))
+                calls.append((rng.choice(["predict_draw", "predict_rank"]), t, ("N",), ("N",), lab))
+        # as the selector itself, and at each position inside it
+        good = [("I", 2), ("F", 0.5), ("B", True)]
+        for sel in (0, 1):
+            args = [("N",), ("N",)]; args[sel] = j
+            calls.append(("rate", base, args[0], args[1], "selector=" + j[0]))
+            for i in range(n):
+                v = list(good); v[i] = j
+                args = [("N",), ("N",)]; args[sel] = ("L", v)
+                calls.append(("rate", base, args[0], args[1], "selector-element=" + j[0]))
+        calls.append(("rate", base, ("L", good), j, "both?"))
+        calls.append(("rate", base, j, ("L", good), "both?"))
+    return calls
+
+
+def c13(res):
+    rng = random.Random(res.seed)
+    calls = []
+    for kind in KINDS:
+        if res.shard == 0:
+            calls += [(kind, c) for c in c13_systematic(rng, kind)]
+    for _ in range(size(res, 4000, 20000)):
+        kind = rng.choice(KINDS)
+        calls.append((kind, gen_call(rng, kind)))
+    outs = Driver().run([c13_line(k, c) for (k, c) in calls])
+    for (kind, call), o in zip(calls, outs):
+        res.case(dict(kind=kind, call=[call[0], show(call[1]), show(call[2]), show(call[3])]))
+        c13_call(res, kind, call, o)
+    res.rule = ("a grammar of argument terms (None, bool, int, float, str, list, tuple, dict, set, own/foreign rating, Decimal, Fraction, "
+                "complex, bytes, range, function) injected systematically at every position of a valid 3-team game (teams, team, player, "
+                "selector, selector element, both selectors) for all five classes, plus random calls; materialised as real Python objects; "
+                "accept/reject compared with the Lean validation model (proved equivalent to the property's well-formedness predicate), "
+                "exception class in {TypeError, ValueError}, snapshots of every rating and of model.__dict__ before/after")
+
+
+register("C13", c13, c13_item)
+
+
+# =============================================================================== C14
+class WriteLog(list):
+    pass
+
+
+def traced_model(kind, log, **kw):
+    cls = MODEL_CLS[kind]
+
+    class Traced(cls):
+        def __setattr__(self, k, v):
+            if self.__dict__.get("_verif_armed"):
+                log.append(k)
+            object.__setattr__(self, k, v)
+
+        def __delattr__(self, k):
+            log.append("del " + k)
+            object.__delattr__(self, k)
+    m = Traced(**kw)
+    object.__setattr__(m, "_verif_armed", True)
+    return m
+
+
+def gen_calls(rng, kind, beta, ncalls):
+    calls = []
+    for _ in range(ncalls):
+        op = rng.choice(["rate", "rate", "rate", "predict_win", "predict_draw", "predict_rank"])
+        teams = gen_teams(rng, rng.choice(["typical", "mismatch", "equalsize"]), beta, n=rng.randint(2, 4), maxsize=3)
+        n = len(teams)
+        kw = {}
+        if op == "rate":
+            r = rng.random()
+            if r < 0.5: kw["ranks"] = encode_ranks(rng, random_weak_order(rng, n))
+            elif r < 0.8: kw["scores"] = encode_ranks(rng, random_weak_order(rng, n), "frac")
+            if rng.random() < 0.5: kw["tau"] = rng.choice([0.0, beta / 10, beta / 50, 2 * beta])
+            if rng.random() < 0.5: kw["limit_sigma"] = rng.random() < 0.5
+        calls.append((op, teams, kw))
+    return calls
+
+
+def do_call(model, op, teams_vals, kw, namer):
+    teams = [[model.rating(mu=m, sigma=s, name=namer()) for (m, s) in t] for t in teams_vals]
+    if op == "rate":
+        out = model.rate(teams, **{k: (list(v) if isinstance(v, list) else v) for k, v in kw.items()})
+        return [[(p.mu, p.sigma) for p in t] for t in out]
+    out = getattr(model, op)(teams)
+    return out
+
+
+def c14_history(res, rng, kind):
+    beta, kappa, tau = gen_config(rng, 0.5)
+    cfg = dict(beta=beta, kappa=kappa, tau=tau, limit_sigma=rng.random() < 0.3)
+    calls = gen_calls(rng, kind, beta, size(res, 30, 120))
+    log = WriteLog()
+    shared = traced_model(kind, log, **cfg)
+    ctr = itertools.count()
+    for k, (op, teams, kw) in enumerate(calls):
+        inp = dict(type="c14", kind=kind, cfg=cfg, calls=core.jsonable(calls[:k + 1]))
+        before = p_state(shared)
+        try:
+            got = do_call(shared, op, teams, kw, lambda: "n%d" % next(ctr))
+        except Exception as e:  # noqa: BLE001
+            res.fail("property", "C14: valid call raised %s" % type(e).__name__, inp); return
+        res.count("calls_" + op)
+        res.evaluations += 1
+        if log:
+            res.fail("property", "C14: %s(%s) wrote model attribute(s) %s" % (op, sorted(kw), sorted(set(log))), inp); return
+        if p_state(shared) != before:
+            res.fail("property", "C14: %s changed the model's __dict__" % op, inp); return
+        fresh = MODEL_CLS[kind](**cfg)
+        want = do_call(fresh, op, teams, kw, lambda: None)
+        if got != want:
+            res.fail("property", "C14: call %d (%s %s) on a shared model after %d earlier calls returns %r, on a fresh model %r" % (
+                k, op, kw, k, first_mismatch(got, want), None), inp); return
+
+
+def p_state(m):
+    return {k: (v if not callable(v) else id(v)) for k, v in m.__dict__.items() if k != "_verif_armed"}
+
+
+def first_mismatch(a, b):
+    return (a, b) if not isinstance(a, list) else next(((x, y) for x, y in zip(a, b) if x != y), None)
+
+
+def c14_threads(res, rng, kind):
+    beta, kappa, tau = gen_config(rng, 0.5)
+    cfg = dict(beta=beta, kappa=kappa, tau=tau, limit_sigma=rng.random() < 0.3)
+    nthreads = 4
+    per = [gen_calls(rng, kind, beta, size(res, 40, 150)) for _ in range(nthreads)]
+    shared = MODEL_CLS[kind](**cfg)
+    results = [None] * nthreads
+    errors = []
+    start = threading.Barrier(nthreads)
+
+    def work(t):
+        try:
+            start.wait()
+            results[t] = [do_call(shared, op, teams, kw, lambda: None) for (op, teams, kw) in per[t]]
+        except Exception as e:  # noqa: BLE001
+            errors.append(repr(e))
+    old = sys.getswitchinterval()
+    sys.setswitchinterval(1e-6)
+    try:
+        ths = [threading.Thread(target=work, args=(t,)) for t in range(nthreads)]
+        for th in ths: th.start()
+        for th in ths: th.join()
+    finally:
+        sys.setswitchinterval(old)
+    inp = dict(type="c14threads", kind=kind, cfg=cfg)
+    if errors:
+        res.fail("property", "C14: concurrent valid calls raised %s" % errors[:2], inp); return
+    for t in range(nthreads):
+        fresh = MODEL_CLS[kind](**cfg)
+        serial = [do_call(fresh, op, teams, kw, lambda: None) for (op, teams, kw) in per[t]]
+        res.count("thread_calls", len(serial))
+        if serial != results[t]:
+            k = next(i for i, (a, b) in enumerate(zip(serial, results[t])) if a != b)
+            res.fail("property", "C14: thread %d call %d (%s %s) returned a different result concurrently than serially" % (
+                t, k, per[t][k][0], per[t][k][2]), inp)
+            return
+
+
+PROBE = r'''
+import sys, json, random, hashlib
+sys.path.insert(0, %(harness)r)
+import core, p_api, gen
+rng = random.Random(%(seed)d)
+h = hashlib.sha256()
+for kind in core.KINDS:
+    m = core.MODEL_CLS[kind]()
+    for (op, teams, kw) in p_api.gen_calls(rng, kind, m.beta, 25):
+        h.update(repr(p_api.do_call(m, op, teams, kw, lambda: None)).encode())
+print(h.hexdigest())
+'''
+
+
+def c14_hashseed(res):
+    digests = {}
+    for hs in ("0", "1", "4242", "random"):
+        env = dict(os.environ, PYTHONHASHSEED=hs, OPENSKILL_REPO=core.REPO)
+        p = subprocess.run([sys.executable, "-B", "-c", PROBE % dict(harness=os.path.dirname(os.path.abspath(__file__)), seed=res.seed)],
+                           stdout=subprocess.PIPE, stderr=subprocess.PIPE, env=env)
+        if p.returncode != 0:
+            raise RuntimeError("hash-seed probe failed: " + p.stderr.decode()[-400:])
+        digests[hs] = p.stdout.decode().strip()
+        res.count("hashseed_runs")
+    if len(set(digests.values())) != 1:
+        res.fail("property", "C14: results depend on PYTHONHASHSEED: %r" % digests, dict(type="c14hash"))
+
+
+def c14_item(res, item):
+    rng = random.Random(res.seed)
+    res.case(item)
+    if item.get("type") == "c14":
+        kind, cfg = item["kind"], item["cfg"]
+        log = WriteLog()
+        shared = traced_model(kind, log, **cfg)
+        for k, (op, teams, kw) in enumerate(item["calls"]):
+            teams = [[tuple(p) for p in t] for t in teams]
+            before = p_state(shared)
+            got = do_call(shared, op, teams, kw, lambda: None)
+            want = do_call(MODEL_CLS[kind](**cfg), op, teams, kw, lambda: None)
+            if log or p_state(shared) != before:
+                res.fail("property", "C14: %s wrote model attribute(s) %s" % (op, sorted(set(log))), item); return
+            if json.dumps(core.jsonable(got)) != json.dumps(core.jsonable(want)):
+                res.fail("property", "C14: call %d depends on the call history" % k, item); return
+    else:
+        for kind in KINDS:
+            c14_history(res, rng, kind)
+
+
+def c14(res):
+    rng = random.Random(res.seed)
+    for rep in range(size(res, 2, 8)):
+        for kind in KINDS:
+            res.case(dict(kind=kind, rep=rep, what="history"))
+            c14_history(res, rng, kind)
+    for rep in range(size(res, 1, 6)):
+        for kind in KINDS:
+            res.case(dict(kind=kind, rep=rep, what="threads"))
+            c14_threads(res, rng, kind)
+    if res.shard == 0:
+        c14_hashseed(res)
+    # the numbers of rate calls with per-call options also against the Lean model (pure function of values)
+    games = [gen_game(rng, options=True) for _ in range(size(res, 300, 1500))]
+    corr_games(res, games, "correspondence", "C14 rate as a pure function of (params, values, arguments)")
+    res.rule = ("(i) every attribute write on a traced subclass of the model during random rate/predict calls with per-call tau/limit_sigma, and "
+                "model.__dict__ before/after; (ii) each call on the shared model vs the same call on a fresh model with fresh rating objects "
+                "(other ids, no names): bit-identical; (iii) 4 real threads on disjoint ratings through one shared model, switch interval 1e-6, "
+                "vs serial: bit-identical; (iv) a fixed sample re-run in subprocesses under PYTHONHASHSEED 0/1/4242/random: identical digest")
+
+
+register("C14", c14, c14_item,
+         assumptions=["the GIL's real switch points and the process hash seed live in the runtime: (iii) and (iv) are explorations supporting the footprint claim the interleaving theorem needs, not theorems"])
+
+
+# =============================================================================== C18
+GRID = [-25.0, -3.0, -1.0, -0.0, 0.0, 0.5, 1.0, 3.0, 8.333333333333334, 25.0, 27.5, 1e-300]
+
+
+def c18_pair(res, kind, a, b, drv_lines, checks):
+    R = RATING_CLS[kind]
+    ra, rb = R(a[0], a[1]), R(b[0], b[1])
+    for op in ("lt", "le", "gt", "ge", "eq"):
+        drv_lines.append("CMP %s %s %s 1 %s %s" % (op, f2h(a[0]), f2h(a[1]), f2h(b[0]), f2h(b[1])))
+        checks.append((kind, op, a, b, ra, rb))
+
+
+PYOP = {"lt": lambda x, y: x < y, "le": lambda x, y: x <= y, "gt": lambda x, y: x > y, "ge": lambda x, y: x >= y, "eq": lambda x, y: x == y}
+
+
+def c18_eval(res, checks, outs):
+    for (kind, op, a, b, ra, rb), o in zip(checks, outs):
+        inp = dict(type="c18", kind=kind, op=op, a=list(a), b=list(b))
+        try:
+            got = PYOP[op](ra, rb)
+        except Exception as e:  # noqa: BLE001
+            res.fail("property", "C18: %s %s on two ratings of one class raised %s" % (kind, op, type(e).__name__), inp); continue
+        res.traces += 1
+        oa, ob = a[0] - 3.0 * a[1], b[0] - 3.0 * b[1]
+        want = PYOP[op](oa, ob) if op != "eq" else (a[0] == b[0] and a[1] == b[1])
+        if got is not want and got != want:
+            res.fail("property", "C18: %s: (%r,%r) %s (%r,%r) is %r but the ordinals are %r and %r" % (kind, a[0], a[1], op, b[0], b[1], got, oa, ob), inp)
+        if str(bool(got)) != o:
+            res.fail("correspondence", "C18: %s %s: implementation %r, model %s" % (kind, op, got, o), inp)
+
+
+def c18_foreign(res, kind):
+    R = RATING_CLS[kind]
+    a = R(25.0, 8.0)
+    others = [None, 3, 2.5, "x", (25.0, 8.0), [25.0, 8.0], object()] + [RATING_CLS[k](25.0, 8.0) for k in KINDS if k != kind]
+    for o in others:
+        for op in ("lt", "le", "gt", "ge"):
+            for x, y in ((a, o),):
+                try:
+                    PYOP[op](x, y)
+                    res.fail("property", "C18: %s rating %s %r did not raise" % (kind, op, type(o).__name__), dict(type="c18foreign", kind=kind)); return
+                except ValueError:
+                    res.count("foreign_valueerror")
+                except Exception as e:  # noqa: BLE001
+                    res.fail("property", "C18: %s rating %s %r raised %s, not ValueError" % (kind, op, type(o).__name__, type(e).__name__),
+                             dict(type="c18foreign", kind=kind)); return
+        try:
+            if (a == o) is not False or (a != o) is not True:
+                res.fail("property", "C18: %s rating == %r is not simply unequal" % (kind, type(o).__name__), dict(type="c18foreign", kind=kind)); return
+        except Exception as e:  # noqa: BLE001
+            res.fail("property", "C18: %s rating == %r raised %s" % (kind, type(o).__name__, type(e).__name__), dict(type="c18foreign", kind=kind)); return
+
+
+def c18_item(res, item):
+    res.case(item)
+    if item.get("type") == "c18":
+        lines, checks = [], []
+        c18_pair(res, item["kind"], tuple(item["a"]), tuple(item["b"]), lines, checks)
+        c18_eval(res, checks, Driver().run(lines))
+    else:
+        for kind in KINDS:
+            c18_foreign(res, kind)
+
+
+def c18(res):
+    rng = random.Random(res.seed)
+    grid = GRID if res.tier == "quick" else GRID + [rng.uniform(-30, 30) for _ in range(14)]
+    pts = [(m, s) for m in grid for s in grid if True]
+    pts = rng.sample(pts, size(res, 40, 120))
+    # equal ordinals from different (mu, sigma), exactly representable
+    pts += [(25.0, 8.0), (28.0, 9.0), (1.0, 0.0), (4.0, 1.0), (-2.0, -1.0), (0.0, 0.0), (-0.0, 0.0), (3.0, 1.0)]
+    lines, checks = [], []
+    k = 0
+    for kind in KINDS:
+        for a in pts:
+            for b in pts:
+                k += 1
+                if k % res.nshards != res.shard:
+                    continue
+                if res.tier == "quick" and k % 5 != KINDS.index(kind):
+                    continue
+                res.case(dict(kind=kind, a=a, b=b))
+                c18_pair(res, kind, a, b, lines, checks)
+        c18_foreign(res, kind)
+        # ordinal and sorting
+        R = RATING_CLS[kind]
+        for (m, s) in pts[:30]:
+            for z in (3.0, 0.0, 1.0, -2.0, 2.5):
+                if R(m, s).ordinal(z) != m - z * s or R(m, s).ordinal() != m - 3.0 * s:
+                    res.fail("property", "C18: %s ordinal(%r) of (%r,%r) is not mu - z*sigma" % (kind, z, m, s), dict(type="c18ord", kind=kind)); break
+        rs = [R(m, s) for (m, s) in pts]
+        rng.shuffle(rs)
+        srt = sorted(rs)
+        ords = [r.ordinal() for r in srt]
+        if any(x > y for x, y in zip(ords, ords[1:])):
+            res.fail("property", "C18: sorting %s ratings does not give the leaderboard order by ordinal" % kind, dict(type="c18sort", kind=kind))
+    c18_eval(res, checks, Driver().run(lines))
+    res.rule = ("per rating class: all ordered pairs over a grid of (mu, sigma) incl. negatives, zeros, -0.0, equal ordinals from different "
+                "(mu, sigma); the five operators compared with the ordinals and with the Lean model; ordinal(z); sorting; foreign operands "
+                "(None, numbers, str, tuple, list, object, the other four rating classes): ValueError for < <= > >=, unequal for ==")
+
+
+register("C18", c18, c18_item)
+
+
+# =============================================================================== C19
+PUBLIC = ["rate", "predict_win", "predict_draw", "predict_rank", "rating", "create_rating", "__init__"]
+RPUBLIC = ["__init__", "ordinal", "__eq__", "__lt__", "__le__", "__gt__", "__ge__", "__hash__", "__deepcopy__"]
+
+
+def norm_sig(fn, clsnames):
+    """parameter names, kinds and defaults (annotations name the model's own classes and are left out)"""
+    out = []
+    for p in inspect.signature(fn).parameters.values():
+        d = p.default
+        if d is inspect.Parameter.empty:
+            d = "<required>"
+        elif callable(d):
+            d = getattr(d, "__name__", "callable")
+        out.append((p.name, str(p.kind), repr(d)))
+    return repr(out)
+
+
+def c19_signatures(res):
+    names = []
+    for k in KINDS:
+        names += [MODEL_CLS[k].__name__ + "TeamRating", MODEL_CLS[k].__name__ + "Rating", MODEL_CLS[k].__name__]
+    names.sort(key=len, reverse=True)
+    for meth in PUBLIC:
+        sigs = {k: norm_sig(getattr(MODEL_CLS[k], meth), names) for k in KINDS}
+        res.count("signatures")
+        if len(set(sigs.values())) != 1:
+            res.fail("property", "C19: signature of %s differs between the models: %r" % (meth, sigs), dict(type="c19sig"))
+    for meth in RPUBLIC:
+        sigs = {k: norm_sig(getattr(RATING_CLS[k], meth), names) for k in KINDS}
+        if len(set(sigs.values())) != 1:
+            res.fail("property", "C19: signature of rating.%s differs between the models: %r" % (meth, sigs), dict(type="c19sig"))
+    pubs = {k: sorted(n for n in dir(MODEL_CLS[k]) if not n.startswith("_") and not n.endswith("Rating")) for k in KINDS}
+    if len(set(map(tuple, pubs.values()))) != 1:
+        res.fail("property", "C19: the models expose different public operations: %r" % pubs, dict(type="c19sig"))
+
+
+def c19_item(res, item):
+    res.case(item)
+    if item.get("type") == "pred":
+        c19_pred(res, item["game"])
+    elif item.get("type") == "game":
+        c19_two(res, item["game"])
+    elif item.get("type") == "c13":
+        op, a, b, c, label = item["call"]
+        c19_malformed(res, (op, totuple(a), totuple(b), totuple(c), label))
+    else:
+        c19_signatures(res)
+
+
+def c19_pred(res, g):
+    outs = {}
+    for k in KINDS:
+        g2 = dict(g); g2["kind"] = k
+        try:
+            outs[k] = p_pred.impl_pred(g2)
+        except Exception as e:  # noqa: BLE001
+            outs[k] = "raised " + type(e).__name__
+    res.traces += 1
+    if any(outs[k] != outs["PL"] for k in KINDS):
+        bad = [k for k in KINDS if outs[k] != outs["PL"]]
+        res.fail("property", "C19: predictions differ between models for identical values and parameters: %s vs PL" % bad, dict(type="pred", game=g))
+
+
+def retag(term, kind):
+    if term[0] in ("L", "T"):
+        return (term[0], [retag(x, kind) for x in term[1]])
+    if term[0] == "R":
+        return ("R", term[1] if term[1].startswith("!") else kind, term[2], term[3]) if not term[1].startswith("!") else term
+    return term
+
+
+def c19_malformed(res, call):
+    """the same call shape against each class (own ratings re-tagged to that class; foreign ones stay foreign)"""
+    op, teams_t, ranks_t, scores_t, label = call
+    outs = {}
+    for k in KINDS:
+        foreign = KINDS[(KINDS.index(k) + 1) % 5]
+
+        def rt(term):
+            if term[0] in ("L", "T"):
+                return (term[0], [rt(x) for x in term[1]])
+            if term[0] == "R":
+                return ("R", k if term[1] == "own" else foreign, term[2], term[3])
+            return term
+        reg = []
+        teams, ranks, scores = materialize(rt(teams_t), reg), materialize(rt(ranks_t), reg), materialize(rt(scores_t), reg)
+        m = MODEL_CLS[k]()
+        try:
+            if op == "rate":
+                m.rate(teams, ranks=ranks, scores=scores)
+            else:
+                getattr(m, op)(teams)
+            outs[k] = "accepted"
+        except Exception as e:  # noqa: BLE001
+            outs[k] = type(e).__name__
+    res.traces += 1
+    if len(set(outs.values())) != 1:
+        res.fail("property", "C19: the models do not accept/reject the same arguments with the same exception class: %r for %s(%s, ranks=%s, scores=%s)" % (
+            outs, op, show(teams_t), show(ranks_t), show(scores_t)), dict(type="c13", call=[op, teams_t, ranks_t, scores_t, label]))
+
+
+def own_tag(term, kind):
+    if term[0] in ("L", "T"):
+        return (term[0], [own_tag(x, kind) for x in term[1]])
+    if term[0] == "R":
+        return ("R", "own" if term[1] == kind else "other", term[2], term[3])
+    return term
+
+
+def c19_two(res, g):
+    """two-team games: BT partial pairing returns exactly what BT full pairing returns"""
+    a = dict(g); a["kind"] = "BTF"
+    b = dict(g); b["kind"] = "BTP"
+    try:
+        A, B = impl_teams(a), impl_teams(b)
+    except Exception as e:  # noqa: BLE001
+        res.fail("property", "C19: valid call raised %s" % type(e).__name__, dict(type="game", game=g)); return
+    res.count("two_team_games")
+    if A != B:
+        res.fail("property", "C19: two-team game: BradleyTerryPart %r differs from BradleyTerryFull %r" % (B[0][0], A[0][0]), dict(type="game", game=a))
+
+
+def c19_rating_rules(res, rng):
+    for _ in range(40):
+        m, s = rng.gauss(25, 8), rng.uniform(0, 9)
+        m2, s2 = rng.choice([(m, s), (m + 1, s), (m, s + 1), (m + 3, s + 1)])
+        rows = {}
+        for k in KINDS:
+            R = RATING_CLS[k]
+            a, b = R(m, s, "n"), R(m2, s2)
+            c = copy.deepcopy(a)
+            rows[k] = (a == b, a < b, a <= b, a > b, a >= b, a.ordinal(), hash(a) == hash((a.id, a.mu, a.sigma)),
+                       (c.mu, c.sigma, c.name) == (a.mu, a.sigma, a.name), c.id == a.id, c is not a, hash(c) == hash(a))
+        res.count("rating_rule_rows")
+        if len(set(rows.values())) != 1:
+            res.fail("property", "C19: rating classes compare/hash/copy by different rules: %r" % rows, dict(type="c19rules"))
+            return
+
+
+def c19(res):
+    rng = random.Random(res.seed)
+    c19_signatures(res)
+    c19_rating_rules(res, rng)
+    for _ in range(size(res, 400, 3000)):
+        g = p_pred.pred_game(rng, kind="PL")
+        res.case(g); describe(res, g)
+        c19_pred(res, g)
+    for _ in range(size(res, 600, 4000)):
+        kind = "PL"
+        call = gen_call(rng, kind)
+        call = (call[0], own_tag(call[1], kind), own_tag(call[2], kind), own_tag(call[3], kind), call[4])
+        res.case(dict(call=[call[0], show(call[1]), show(call[2]), show(call[3])]))
+        c19_malformed(res, call)
+    games = []
+    for _ in range(size(res, 500, 4000)):
+        g = gen_game(rng, kind="BTF", n=2)
+        res.case(g)
+        c19_two(res, g)
+        games.append(g)
+        g2 = dict(g); g2["kind"] = "BTP"; games.append(g2)
+    corr_games(res, games, "correspondence", "C19 two-team BT games")
+    # each of the five classes separately against the single kind-free model
+    pg = []
+    for _ in range(size(res, 60, 400)):
+        for k in KINDS:
+            pg.append(p_pred.pred_game(rng, kind=k))
+    p_pred.corr_pred(res, pg, "correspondence", "C19 each class vs the kind-free model")
+    res.rule = ("cross-class on the implementation: predictions bit-identical for identical values/parameters; the C13 grammar (own vs foreign "
+                "rating re-tagged per class) accepted/rejected with the same class; inspect.signature of public methods; compare/hash/deepcopy "
+                "rows; two-team games: BradleyTerryPart == BradleyTerryFull bit-exactly; each class separately against the kind-free Lean model")
+
+
+register("C19", c19, c19_item,
+         assumptions=["equality of method signatures is a reflection check in the harness (inspect.signature), not a theorem"])
+
+
+# =============================================================================== C20
+VALS = [0.0, -0.0, 25.0, -3.5, 1e-300, 1e300, 8.333333333333334, 0, -7, 3, True, False, 5e-324]
+
+
+def same_value(a, b):
+    return type(a) is type(b) and (a == b) and (not isinstance(a, float) or math.copysign(1, a) == math.copysign(1, b))
+
+
+def c20_construct(res, kind, seen_ids):
+    M = MODEL_CLS[kind]
+    m = M(mu=31.0, sigma=7.0)
+    inp = dict(type="c20", kind=kind)
+    for mu in VALS:
+        for sg in VALS:
+            for name in (None, "alice", "a b"):
+                r = m.rating(mu, sigma=sg, name=name)
+                res.count("constructed")
+                if not (same_value(r.mu, mu) and same_value(r.sigma, sg) and r.name == name):
+                    res.fail("property", "C20: %s.rating(%r, %r, %r) holds (%r, %r, %r)" % (kind, mu, sg, name, r.mu, r.sigma, r.name), inp); return
+                r2 = M.create_rating([mu, sg], name)
+                if not (same_value(r2.mu, mu) and same_value(r2.sigma, sg) and r2.name == name):
+                    res.fail("property", "C20: %s.create_rating([%r, %r], %r) holds (%r, %r, %r)" % (kind, mu, sg, name, r2.mu, r2.sigma, r2.name), inp); return
+                for x in (r, r2):
+                    if x.id in seen_ids:
+                        res.fail("property", "C20: rating id %r is not fresh" % x.id, inp); return
+                    seen_ids.add(x.id)
+                c = copy.deepcopy(r)
+                if not (c is not r and same_value(c.mu, r.mu) and same_value(c.sigma, r.sigma) and c.name == r.name and c.id == r.id):
+                    res.fail("property", "C20: deepcopy of a rating does not preserve mu/sigma/name/id in a distinct object", inp); return
+    d = m.rating()
+    if not (d.mu == 31.0 and d.sigma == 7.0 and d.name is None):
+        res.fail("property", "C20: rating() without arguments does not use the model defaults", inp)
+    d = m.rating(sigma=0.0)
+    if not (d.mu == 31.0 and same_value(d.sigma, 0.0)):
+        res.fail("property", "C20: rating(sigma=0.0) does not hold sigma 0.0 / default mu", inp)
+    d = m.rating(mu=0)
+    if not (same_value(d.mu, 0) and d.sigma == 7.0):
+        res.fail("property", "C20: rating(mu=0) does not hold mu 0 / default sigma", inp)
+    nested = [[m.rating(1.0, 2.0, "x"), m.rating(3.0, 4.0)], [m.rating(5.0, 6.0, "y")]]
+    cp = copy.deepcopy(nested)
+    for t, tc in zip(nested, cp):
+        for p, q in zip(t, tc):
+            if not (q is not p and (q.mu, q.sigma, q.name, q.id) == (p.mu, p.sigma, p.name, p.id)):
+                res.fail("property", "C20: deepcopy of nested team lists does not preserve the ratings", inp); return
+
+
+def c20_league(res, rng, kind, games_out):
+    beta, kappa, tau = gen_config(rng, 0.6)
+    cfg = dict(beta=beta, kappa=kappa, tau=tau, limit_sigma=rng.random() < 0.3)
+    model = MODEL_CLS[kind](**cfg)
+    npl = rng.randint(5, 10)
+    sc = beta / core.DEFAULTS["beta"]
+    A = [model.rating(rng.gauss(25, 8) * sc, rng.uniform(1, 9) * sc, "p%d" % i) for i in range(npl)]
+    B = [model.rating(a.mu, a.sigma) for a in A]
+    for gi in range(size(res, 40, 200)):
+        nt = rng.randint(2, 4)
+        ids = rng.sample(range(npl), rng.randint(nt, min(npl, 2 * nt)))
+        tid = [[] for _ in range(nt)]
+        for k, p in enumerate(ids):
+            tid[k % nt].append(p)
+        ranks = encode_ranks(rng, random_weak_order(rng, nt))
+        kw = dict(ranks=ranks)
+        if rng.random() < 0.3: kw["tau"] = rng.choice([0.0, beta / 10])
+        if rng.random() < 0.3: kw["limit_sigma"] = rng.random() < 0.5
+        # B: serialise to (mu, sigma) and rebuild before some games (fresh model too, now and then)
+        if rng.random() < 0.6:
+            store = [(b.mu, b.sigma) for b in B]
+            mB = MODEL_CLS[kind](**cfg) if rng.random() < 0.5 else model
+            B = [mB.create_rating([m, s]) if rng.random() < 0.5 else mB.rating(m, s) for (m, s) in store]
+            res.count("rebuilds")
+        tA = [[A[p] for p in t] for t in tid]
+        tB = [[B[p] for p in t] for t in tid]
+        inp = dict(type="c20league", kind=kind, cfg=cfg)
+        pa = (model.predict_win(tA), model.predict_draw(tA), model.predict_rank(tA))
+        pb = (model.predict_win(tB), model.predict_draw(tB), model.predict_rank(tB))
+        if pa != pb:
+            res.fail("property", "C20: predictions with rebuilt ratings differ from the originals at game %d" % gi, inp); return
+        oA = model.rate(tA, **dict(kw, ranks=list(ranks)))
+        oB = model.rate(tB, **dict(kw, ranks=list(ranks)))
+        res.count("league_games")
+        res.evaluations += 1
+        for t, ta, tb in zip(tid, oA, oB):
+            for p, a, b in zip(t, ta, tb):
+                if (a.mu, a.sigma) != (b.mu, b.sigma):
+                    res.fail("property", "C20: game %d: rebuilt player %d ends (%r, %r), original (%r, %r)" % (gi, p, b.mu, b.sigma, a.mu, a.sigma), inp)
+                    return
+                A[p], B[p] = a, b
+
+
+def c20_item(res, item):
+    rng = random.Random(res.seed)
+    res.case(item)
+    kind = item.get("kind", "PL")
+    c20_construct(res, kind, set())
+    c20_league(res, rng, kind, [])
+
+
+def c20(res):
+    rng = random.Random(res.seed)
+    seen = set()
+    for kind in KINDS:
+        res.case(dict(kind=kind, what="constructors"))
+        c20_construct(res, kind, seen)
+    for rep in range(size(res, 2, 10)):
+        for kind in KINDS:
+            res.case(dict(kind=kind, rep=rep, what="league with rebuilds"))
+            c20_league(res, rng, kind, [])
+    games = [gen_game(rng) for _ in range(size(res, 300, 1500))]
+    corr_games(res, games, "correspondence", "C20 rate as a function of (mu, sigma) values")
+    res.rule = ("rating(mu, sigma, name) / create_rating([mu, sigma], name) over a grid incl. 0, -0.0, negatives, ints, bools, denormals: "
+                "exact value and type preserved, defaults only for omitted arguments, ids pairwise distinct; deepcopy of ratings and nested "
+                "lists; leagues run twice, once with every player serialised to (mu, sigma) and rebuilt (rating / create_rating, same or fresh "
+                "model) before ~60% of the games: all predictions and posteriors bit-identical")
+
+
+register("C20", c20, c20_item)
